@@ -19,6 +19,8 @@ RULE = ("seeded model programs (float/int/Duration clocks, warm-up in {0, inside
         "by direct register and by data events from a producer, optionally interrupted by forced pauses, 30% with one-shot warm-up listeners subscribed before the statistics; a sibling model with the same statistic keys is initialised before the key look-ups are repeated; non-trivial "
         "= >=1 observation before and >=2 after the warm-up notification for some statistic and the warm-up strictly "
         "inside the run; distinct = canonical program hash")
+RULE += '; one case in seven uses a model object that is falsy (an empty container with __len__)'
+RULE += '; in a third of the cases half of the counter increments are bool / IntEnum / int-subclass objects'
 ASSUMPTIONS = ["an observation made at exactly the warm-up time by an event that ran before the warm-up notification (priority 10, "
                "scheduled earlier, or during construct_model) is ambiguous in the statement: counting it and not counting it are both accepted",
                "the ordinary statistic is fed through the same numeric conversion the documented entry point applies (float() for data events)"]
@@ -36,12 +38,27 @@ def gen_case(rng, tier, i):
     clock = ["float", "duration", "int", "float"][i % 4]
     length = rng.choice([10, 20])
     warm = rng.choice([0, 2, 5, length // 2, length, 3, 4])
+    if clock == "int" and (i // 4) % 3 == 0:
+        warm = [2.5, 4.5, 0.5][(i // 12) % 3]        # a warm-up time between two ticks of an int clock
     prog = gen_program(rng, clock=clock, n_events=rng.randint(6, 40), with_bad=False, horizon=length, warm=warm,
                        with_cancel=rng.random() < 0.3, start_at=(2 ** 30 if clock != "duration" and i % 5 == 4 else None))
     add_stats(rng, prog, watch=True, density=0.9, baseline=True)
     if rng.random() < 0.3:
         from vlib.proggen import add_oneshot_simlisteners
         add_oneshot_simlisteners(rng, prog)     # the model's own warm-up listeners come and go; every statistic still gets its reset
+    if i % 3 == 1:
+        # counter increments that are ints but not plain int objects (True, IntEnum members, an int subclass)
+        from vlib.subtypes import int_marker
+        ckeys = {sp["key"] for sp in prog["stats"] if sp["kind"] == "counter"}
+        pos = 0
+        for acts in [prog["init"]] + list(prog["handlers"].values()) + [prog.get("initial", [])]:
+            for a_ in acts:
+                if a_[0] == "obs" and a_[1] in ckeys and isinstance(a_[2], int):
+                    pos += 1
+                    if pos % 2:
+                        a_[2] = int_marker(a_[2], pos // 2)
+    if i % 7 == 2:
+        prog["empty_container_model"] = True      # the model object is falsy (an empty container with __len__)
     case = {"prog": prog, "pauses": [rng.randint(1, 6) for _ in range(rng.choice([0, 0, 1, 2]))]}
     if i % 6 == 3:
         # the model ends its replication early from a handler (after the warm-up), and the run that is in progress then
@@ -75,12 +92,17 @@ def shard_teardown(tier, ctx):
     sys.stderr = sys.__stderr__
 
 
+def _mat(v):
+    from vlib.subtypes import materialize
+    return materialize(v)
+
+
 def _ordinary(S, kind, obs, conv, end):
     """an ordinary statistic fed the given observation records"""
     if kind == "counter":
         o = S.Counter("o")
         for r in obs:
-            o.register(r[3][0])
+            o.register(_mat(r[3][0]))
     elif kind == "tally":
         o = S.Tally("o")
         for r in obs:
@@ -110,6 +132,8 @@ def run_case(case, ctx):
     warm = start + tnum(prog, prog["rep"]["warmup"])
     end = start + tnum(prog, prog["rep"]["length"])
     h = Harness(prog)
+    if prog.get("empty_container_model"):
+        ctx.count("cases_with_a_falsy_model_object")
     try:
         if len(case["pauses"]) == 1:
             # the judged replication is not the first one on this simulator: it was initialised once before
@@ -232,7 +256,7 @@ def run_case(case, ctx):
             if kind == "counter":
                 o = S.Counter("o")
                 for r in post:
-                    o.register(r[3][0])
+                    o.register(_mat(r[3][0]))
             elif kind == "tally":
                 o = S.Tally("o")
                 for r in post:
